@@ -23,28 +23,28 @@ for p in sorted(glob.glob(os.path.join(HERE, "props", "c*_*.py"))):
 
 TEXTS = {
  "C01": ("model-based property testing: Hypothesis op-list histories against a sorted-list reference model",
-         "Every generated add/remove/pop/peek/contains/clear history over 4 time types is compared op by op with a sorted-list model, including the drain order of a replayed copy after every mutation and all six comparison operators on all pool pairs. Exploration is the right level: the property quantifies over unbounded histories; the check searches them with thousands (quick) to hundreds of thousands (thorough) of shrinking, tie-rich cases and catches every seeded change and mutant tried, but proves nothing beyond the cases run.",
+         "Every generated add/remove/pop/peek/contains/clear history over 4 time types (events of SimEvent and of user subclasses, big-int ties beyond 2**53) is compared op by op with a sorted-list model, including the drain order of a replayed copy after every mutation and all six comparison operators on all pool pairs; an exception escaping from a valid operation is a failure. Exploration is the right level: the property quantifies over unbounded histories; the check searches them with thousands (quick) to hundreds of thousands (thorough) of shrinking, tie-rich cases and catches every seeded change and mutant tried, but proves nothing beyond the cases run.",
          "Trusts the 30-line reference model in props/c01_eventlist.py and CPython's tuple/float ordering; NaN times and re-adding a pending event are excluded."),
  "C02": ("model-based property testing: generated model programs against a reference DEVS interpreter",
-         "Generated handler programs (schedule now/rel/abs/pre-built, cancel, illegal requests; float, int and Duration clocks) are executed by the real simulator and by an independent reference interpreter; executed trace, clock inside handlers, per-request acceptance/refusal and event-list size must agree, plus independent exactly-once / monotone invariants. Exploration: thousands of programs per run, no proof.",
+         "Generated handler programs (schedule now/rel/abs/pre-built, cancel, illegal requests; float, int and Duration clocks; the horizon run by start() or by one bounded command at/beyond the end) are executed by the real simulator and by an independent reference interpreter; executed trace, clock inside handlers, per-request acceptance/refusal and event-list size must agree, plus independent exactly-once / monotone invariants. Exploration: thousands of programs per run, no proof.",
          "Trusts RefSim in vlib/simharness.py (sorted pending list, same float additions) as the oracle; structural quiescence detection uses SimulatorWorkerThread.is_waiting()."),
  "C03": ("model-based + metamorphic property testing: generated programs x generated segmentations",
-         "Each generated program is run under a generated segmentation (bounded runs with cuts on / between / before / beyond event times, steps, stop-start pauses placed deterministically after event k); per piece the reference semantics must hold and the whole must equal one uninterrupted run on a fresh simulator. Exploration of the segmentation space by generation; the pause mechanism owns the schedule, so results are deterministic.",
+         "Each generated program is run under a generated segmentation (bounded runs with cuts on / between / before / beyond event times, steps, stop-start pauses placed deterministically after event k; optionally bounds of the other numeric type and an earlier replication of another length on the same simulator); per piece the reference semantics must hold and the whole must equal one uninterrupted run on a fresh simulator. Exploration of the segmentation space by generation; the pause mechanism owns the schedule, so results are deterministic.",
          "Trusts RefSim; a bound before the clock may be refused or ignored (the property does not say which)."),
  "C04": ("bounded-exhaustive enumeration of command sequences + enumerated rendezvous schedules + Hypothesis sequences, against a protocol model and a notification grammar",
          "ALL command sequences over a 10-letter alphabet up to length 4 (quick) / 6 (thorough) and Hypothesis sequences up to length 10 are compared with a protocol model written from the docstrings and a notification grammar; 115 enumerated overlaps of a command with the run thread's transitions (the harness owns the schedule through listener/handler rendezvous) and rapid start/stop alternation must end in a consistent quiescent state, without limbo, with every event executed exactly once. Exhaustive only up to the stated bounds and rendezvous points.",
          "Interleavings are forced only at notification/handler rendezvous points; races whose window contains no such point are not explored (DESIGN.md section 7). Trusts the protocol model in props/c04_lifecycle.py."),
  "C05": ("metamorphic property testing with fault injection: every single fault index for small programs, generated subsets otherwise",
-         "Handlers chosen by the generator (for programs with <= 16 executed events: EVERY single index in turn) raise after performing their actions; under the three non-terminating strategies (set with/without log level), under start, bounded runs and steps, trace, clock, state and pending count must equal the fault-free reference run after every command. Fault enumeration is exhaustive per small program, generated otherwise.",
+         "Handlers chosen by the generator (for programs with <= 16 executed events: EVERY single index in turn) raise after performing their actions (eight kinds of exception, plain SimEvents or a user event class that does not wrap failures); under the three non-terminating strategies (set with/without log level, before or after (re-)initialize, changed by handlers), under start, bounded runs and steps, trace, clock, state and pending count must equal the fault-free reference run after every command. Fault enumeration is exhaustive per small program, generated otherwise.",
          "Faulty handlers raise after their actions (an exception before them would legitimately drop them). Trusts RefSim."),
  "C06": ("differential property testing: replication after a generated prior history vs. the same replication on a brand-new simulator and model",
-         "Stochastic programs with seeded streams, the four simulation statistics, initial methods and re-seeded stream objects are run after a generated prior history (initialised only, steps, stop, bounded, ended, fault pause, cleanup, other seeds/settings) and must be indistinguishable (trace, notifications, draws, every statistics getter bit-identical) from a fresh simulator. Exploration by generation.",
+         "Stochastic programs with seeded streams, the four simulation statistics (one or two event types per producer, producers living for a replication or for the model), initial methods, re-seeded stream objects and initialize attempts from handlers and listeners are run after a generated prior history (initialised only, steps, stop, bounded, ended, fault pause, cleanup, other seeds/settings) and must be indistinguishable (trace, notifications, draws, every statistics getter bit-identical) from a fresh simulator. Exploration by generation.",
          "Differential oracle: a defect that affects fresh and re-initialised runs identically is invisible here (C02/C09-C11 cover those)."),
  "C07": ("differential property testing across interpreter processes and pause points",
-         "Generated stochastic fan-out programs are executed in-process in five variants and, in batches, by child interpreters with different PYTHONHASHSEED, prior activity and pause/bounded drives; digests (events, normalised notifications, draws, deliveries, statistics as hex floats) must be identical and deliveries must follow subscription order. Exploration; wall-clock independence only through pauses and CPU contention.",
+         "Generated stochastic fan-out programs (seeds direct, through a StreamSeedUpdater with user or default fallback, or the default stream of a StreamInformation) are executed in-process in eight variants and, in batches, by child interpreters with different PYTHONHASHSEED, prior activity and pause/bounded drives; digests (events, normalised notifications, draws, deliveries, statistics as hex floats) must be identical and deliveries must follow subscription order. Exploration; wall-clock independence only through pauses and CPU contention.",
          "START/STOP notifications depend on pause points by design and are excluded from the digest."),
  "C11": ("differential + exact-oracle property testing of simulation statistics",
-         "Generated observation schedules around warm-up and end (three clocks, pauses, optional subscribers) are run in the simulator; every getter of the four Sim statistics must be bit-identical to an ordinary statistic fed the observations that the reference interpreter places after the warm-up reset, the persistent's mean must equal the exact (Fraction) time integral, and every published value must equal its getter inside notify. Exploration by generation.",
+         "Generated observation schedules around warm-up and end (three clocks, pauses, optional subscribers, earlier replications, a second model alive in the process, a model class with __len__) are run in the simulator; every getter of the four Sim statistics must be bit-identical to an ordinary statistic fed the observations that the reference interpreter places after the warm-up reset, the persistent's mean must equal the exact (Fraction) time integral, and every published value must equal its getter inside notify. Exploration by generation.",
          "The ordinary statistics share code with the Sim statistics (their arithmetic is judged by C09/C10); priorities restricted to 1..9."),
 }
 GENERIC = ("Generated-input search against an explicit oracle: holds on every generated (and, where stated, exhaustively "
